@@ -4,6 +4,8 @@ import json
 import vlib, lockstep as ls
 
 STAGES = ["Map", "FMap", "Filter", "Partition", "Take", "TakeWhile", "Fold", "ForEach", "Void"]
+# stages whose user function sees single elements: the multiset of its arguments is observed (move `a`)
+APPLIES = {"Map", "FMap", "Filter", "Partition", "TakeWhile", "ForEach"}
 OUTS = {"Map": [0, 1], "FMap": [0, 1], "Filter": [0], "Partition": [0, 1], "Take": [0], "TakeWhile": [0],
         "Fold": [0], "ForEach": [0], "Void": [0]}
 
@@ -53,9 +55,16 @@ def gen_script(rng, stage=None, maxlen=8):
     total = sum(len(v) for v in spec(ls.parse_cfg(cfg), xs).values()) if st != "Take" else n
     sends = ["s%d" % x for x in xs] + ["c0"]
     recvs = ls.drain_moves(outs, rng.randrange(0, total + 2))
-    moves = ls.interleave(rng, [sends, recvs]) + ls.drain_moves(outs, total + 3)
+    moves = ls.interleave(rng, [sends, recvs])
+    if rng.random() < 0.25:
+        # a consumer that pauses for (fake) seconds while the stage waits on a send: "each exactly once" also then
+        for _ in range(rng.choice([1, 1, 2, 3])):
+            moves.insert(rng.randrange(0, len(moves) + 1), "t%d" % rng.choice([1100, 1500, 2500, 7000]))
+    moves += ls.drain_moves(outs, total + 3)
     if st == "ForEach":
         moves.append("v")
+    if st in APPLIES:
+        moves.append("a")
     moves.append("z")
     return cfg + " | " + " ".join(moves)
 
@@ -114,6 +123,14 @@ def evaluate(ctx, script, tr):
             vs.append(vlib.Violation("impl", "%s: error delivered although no function fails" % st, case=script, got=tr.recv.get(k), key=key))
     if st == "ForEach" and tr.visits is not None and 0 in tr.closed and tr.visits != xs:
         vs.append(vlib.Violation("impl", "ForEach visited %s for input %s" % (tr.visits, xs), case=script, expected=xs, got=tr.visits, key=key))
+    if tr.applied is not None and st in APPLIES:
+        # "each exactly once": the user function is applied once to every element (TakeWhile: to a prefix)
+        if len(set(tr.applied)) != len(tr.applied) or any(a not in xs for a in tr.applied):
+            vs.append(vlib.Violation("impl", "%s: user function applied to %s for input %s (an element more than once, or not an element)" % (st, tr.applied, xs),
+                                     case=script, expected=sorted(xs), got=tr.applied, key=dict(key, **{"class": "applied-twice"})))
+        elif st != "TakeWhile" and all(k in tr.closed for k in OUTS[st]) and tr.applied != sorted(xs):
+            vs.append(vlib.Violation("impl", "%s: user function applied to %s, input was %s (each element exactly once)" % (st, tr.applied, sorted(xs)),
+                                     case=script, expected=sorted(xs), got=tr.applied, key=dict(key, **{"class": "applied"})))
     if st == "Take" and tr.steps and int(cfg["n"]) >= 1:
         left = int(tr.steps[-1][2].split(";")[0].split(",")[0])
         if len(xs) - left > int(cfg["n"]):
